@@ -68,6 +68,10 @@ PREFIXES = [
     # s1 is destroyed and re-created while the owners of its first incarnation live on; they end after
     # the new incarnation has registered the same functions (in another order)
     ["reg s1 f1", "reg s1 f2", "reg s2 f1", "reg s2 f2", "recreate s1", "reg s1 f2", "reg s1 f1", "dropstale s1"],
+    # every entry point of the backend is in use (fillers occupy all but two): the callbacks of the tree live in
+    # the last two entries, which are released and handed out again before the tree runs
+    ["fill s1", "fill s2", "reg s1 f1", "reg s1 f2", "reg s2 f2", "reg s2 f1", "unreg s1 f2", "reg s1 f2", "unreg s1 f1",
+     "reg s1 f1", "unreg s2 f1", "reg s2 f1", "unreg s2 f2", "reg s2 f2"],
 ]
 
 
